@@ -80,4 +80,15 @@ PROPS = {
         "assumptions": [],
         "floor": {"quick": 5000, "thorough": 100000},
     },
+    "C12": {
+        "modes": ["dbg"],
+        "level": "exploration",
+        "technique": "runtime monitoring: online comparison with a 6-state reference automaton over exhaustively enumerated server histories; black-box observation (emitted PDUs, input acceptance, delivered bitmaps) through the real RdpClient over TLS",
+        "level_text": "All histories over the 11-symbol server alphabet up to length 4 (quick, 16 105) or 6 (thorough, 1.95 million) are executed, each on a fresh real RdpClient obtained through Connector::connect over TLS against the reference server, plus long random histories biased toward repeated activations (with share ids reused and changed, and multi-PDU payloads with a deactivate-all in the middle). After every step the PDUs the client emitted, the bitmap events it delivered and the outcome of three input attempts (write pointer, write key, try_write) are compared with a reference automaton written from the statement; the client's internal state is never read. The evidence lists the (state, symbol) pairs and distinct observations actually seen.",
+        "level_note": "Trusted: the reference automaton (props/c12.rs: step()) and the reference server. A step's Ok/Err result is not constrained (only its effects are). Histories are bounded in length; the alphabet uses one representative per symbol (two for control-other, unknown-data, fp-other, 1..3 rectangles for fp-bitmap).",
+        "rule": ("cases = server histories; every history of length <= L over {demand-active, synchronize, control-cooperate, control-granted, control-other, font-map, set-error-info, unknown data PDU, deactivate-all, fast-path bitmap, fast-path other} enumerated exhaustively (L=4 quick, 6 thorough), then random histories of length 7..40; distinct = hash(symbols, share ids); all are non-trivial (each step offers input and observes emissions)."),
+        "assumptions": [],
+        "exhaustive": {"quick": True, "thorough": True},
+        "floor": {"quick": 16000, "thorough": 1000000},
+    },
 }
